@@ -14,6 +14,8 @@
                 addition of a step that is not exact in binary, so the flag loop's comparison tolerance
                 is what keeps the flags in place; values returned (all types), flags kept (value and
                 derivative table);
+                "ident"/"identdec" vectors with ye = TRUE give the INPUT table an error column (lines
+                "x y yerr flag"): the clause is unchanged - values returned, flags kept;
      "dov"      all types on the quarter-point grid, optionally one interval WIDER than the input on both
                 sides: derivative-of-value (also in the two extrapolation regions) and knot-continuity
                 relations between ROWS of the two output files; with periodic = TRUE the run uses
@@ -53,19 +55,19 @@ Init == /\ ph = 0
                 /\ KK[1] + dmn < KK[n] + dmx /\ IntegerGrid(KK[1] + dmn, KK[n] + dmx, h)
                 /\ c = [fam |-> "lin", type |-> "linear", K |-> KK, Y |-> y, F |-> f,
                         grid |-> <<KK[1] + dmn, h, KK[n] + dmx>>, per |-> FALSE]
-           \/ \E g \in GapSet, t \in {"linear", "cubic", "akima"} :
-                /\ Chosen(Hash(n, y, f, g + (IF t = "cubic" THEN 1 ELSE IF t = "akima" THEN 2 ELSE 0)), ThinIdent)
+           \/ \E g \in GapSet, t \in {"linear", "cubic", "akima"}, ye \in BOOLEAN :
+                /\ Chosen(Hash(n, y, f, g + (IF t = "cubic" THEN 1 ELSE IF t = "akima" THEN 2 ELSE 0) + (IF ye THEN 5 ELSE 0)), ThinIdent)
                 /\ (t = "cubic" => n >= 3) /\ (t = "akima" => n >= 4)
                 /\ c = [fam |-> "ident", type |-> t, K |-> UKnots(o, g, n), Y |-> y, F |-> f,
-                        grid |-> <<Q * o, Q * g, Q * (o + (n - 1) * g)>>, per |-> FALSE]
-           \/ \E m \in LongN, g \in {1, 2}, xd \in {10, 20}, pos \in {-1, 0, 1}, pat \in 0..3, t \in {"linear", "cubic", "akima"} :
+                        grid |-> <<Q * o, Q * g, Q * (o + (n - 1) * g)>>, per |-> FALSE, ye |-> ye]
+           \/ \E m \in LongN, g \in {1, 2}, xd \in {10, 20}, pos \in {-1, 0, 1}, pat \in 0..3, t \in {"linear", "cubic", "akima"}, ye \in BOOLEAN :
                 \* decimal lattice (unit 1/xd); pos: all abscissae negative / zero-crossing / positive
                 LET o0 == IF pos < 0 THEN -(m - 1) * g - 3 ELSE IF pos = 0 THEN -((m - 1) \div 2) * g ELSE 2
                     KK == [i \in 1..m |-> o0 + (i - 1) * g]
                 IN
                 /\ n = 2 /\ f[1] # f[2] /\ o = 0                 \* two different flags A = f[1], B = f[2]
                 /\ Chosen(Hash(n, y, f, m + 3 * g + xd + pos + 7 * pat
-                                        + (IF t = "cubic" THEN 1 ELSE IF t = "akima" THEN 2 ELSE 0)), ThinDec)
+                                        + (IF t = "cubic" THEN 1 ELSE IF t = "akima" THEN 2 ELSE 0) + (IF ye THEN 11 ELSE 0)), ThinDec)
                 /\ c = [fam |-> "identdec", type |-> t, K |-> KK, Y |-> YOf(sd, m), xd |-> xd,
                         \* pat 0: A..A B (last point only)   1: A B..B (from the 2nd point)
                         \*     2: A A A B..B A A (early and late transition)   3: alternating
@@ -73,7 +75,7 @@ Init == /\ ph = 0
                                               ELSE IF pat = 1 THEN (IF i = 1 THEN f[1] ELSE f[2])
                                               ELSE IF pat = 2 THEN (IF i <= 3 \/ i >= m - 1 THEN f[1] ELSE f[2])
                                               ELSE f[(i % 2) + 1]],
-                        grid |-> <<KK[1], g, KK[m]>>, per |-> FALSE]
+                        grid |-> <<KK[1], g, KK[m]>>, per |-> FALSE, ye |-> ye]
            \/ \E g \in GapSet, t \in {"linear", "cubic", "akima"}, p \in BOOLEAN, w \in {0, 1} :
                 \* w = 1: output grid one interval wider than the input on both sides (extrapolation regions)
                 /\ Chosen(Hash(n, y, f, 7 + g + (IF t = "cubic" THEN 1 ELSE 2) + (IF p THEN 3 ELSE 0) + 5 * w), ThinDov)
@@ -147,6 +149,7 @@ Vector == (Emit /\ ph = 1) =>
   PrintT(ToJson([fam |-> c.fam, type |-> c.type, k |-> K, y |-> Y, f |-> F, grid |-> c.grid,
                  fit |-> IF c.fam = "fitline" THEN c.fit ELSE <<>>, per |-> c.per,
                  xd |-> IF c.fam = "identdec" THEN c.xd ELSE 16,
+                 ye |-> IF c.fam \in {"ident", "identdec"} THEN c.ye ELSE FALSE,
                  n |-> Cnt, x |-> G, fl |-> ExpFlags,
                  val |-> FlatRat(IF c.fam = "lin" \/ (c.fam = "ident" /\ c.type = "linear") THEN LinVals
                                  ELSE IF c.fam \in {"ident", "identdec"} THEN IdVals
